@@ -332,12 +332,180 @@ fn cmd_mock(args: &[String]) {
     std::process::exit(0);
 }
 
+// ---------------------------------------------------------------------------------------------------------
+// real node
+use ckb_chain_spec::versionbits::VersionbitsCache;
+use ckb_store::ChainStore;
+use ckbv::fixture::{self, assemble, builder_node, BlockSpec, Node, NodeCfg, Params};
+
+/// does this block signal bit BIT? (RFC 0043: first four bytes of the cellbase witness message, little endian;
+/// the top three bits must be 000)
+fn signals(b: &BlockView) -> bool {
+    let cb = &b.transactions()[0];
+    let Some(w) = cb.witnesses().get(0) else { return false };
+    let Ok(cw) = CellbaseWitness::from_slice(&w.raw_data()) else { return false };
+    let m = cw.message().raw_data();
+    if m.len() < 4 {
+        return false;
+    }
+    let v = u32::from_le_bytes([m[0], m[1], m[2], m[3]]);
+    v >> 29 == 0 && v & (1 << BIT) != 0
+}
+
+fn observe(node: &Node, c: &Consensus, blocks: &[BlockView]) -> (Vec<String>, Vec<Value>) {
+    let snap = node.shared.cloned_snapshot();
+    let mut st = vec![];
+    let mut since = vec![];
+    for b in blocks {
+        let h = b.header();
+        let s = catch_unwind(AssertUnwindSafe(|| c.versionbits_state(DeploymentPos::Testdummy, &h, snap.as_ref())));
+        st.push(match s {
+            Ok(s) => state_name(s).to_string(),
+            Err(_) => "panic".to_string(),
+        });
+        let e = catch_unwind(AssertUnwindSafe(|| c.versionbits_state_since_epoch(DeploymentPos::Testdummy, &h, snap.as_ref())));
+        since.push(match e {
+            Ok(Some(e)) => json!(e),
+            Ok(None) => Value::Null,
+            Err(_) => json!("panic"),
+        });
+    }
+    (st, since)
+}
+
+fn node_round(round: u64, seed: u64, adjust: bool) -> Value {
+    let mut rng = Rng::new(seed.wrapping_mul(7919) ^ round.wrapping_mul(0x9E37_79B9_7F4A));
+    let epoch_len = rng.range(2, 3);
+    let period = rng.range(2, 3);
+    let start = rng.range(0, period + 1);
+    let timeout = start + period * rng.range(1, 3) + rng.range(0, 1);
+    let minact = if rng.chance(1, 2) { 0 } else { start + 3 * period + rng.range(0, 2) };
+    let (num, den) = [(1u64, 2u64), (3, 4), (1, 1)][rng.below(3) as usize];
+    let mood = [85u64, 60, 30][rng.below(3) as usize]; // % of hand-assembled blocks that signal
+    let p = Params { epoch_len, window: (2, 4), permanent_difficulty: !adjust, genesis_cells: 1, ..Default::default() };
+    let mut c = fixture::consensus(&p);
+    let mut deployments = HashMap::new();
+    deployments.insert(
+        DeploymentPos::Testdummy,
+        Deployment { bit: BIT, start, timeout, min_activation_epoch: minact, period, active_mode: ActiveMode::Normal, threshold: Ratio::new(num, den) },
+    );
+    c.versionbits_caches = VersionbitsCache::new(deployments.keys());
+    c.deployments = deployments;
+    // the persistent cache directory is shared by all rounds of the process: salt the chain (first block's nonce)
+    let salt = (seed << 20) ^ (round << 8);
+    let node = Node::start(&NodeCfg::temp(&c));
+    let epochs = if adjust { 5 } else { 4 * period + 3 };
+    let mut blocks: Vec<BlockView> = vec![c.genesis_block().clone()];
+    let mut parent: Vec<usize> = vec![0];
+    let mut tmpl: Vec<usize> = vec![];
+    let mut moments: Vec<Value> = vec![];
+    let mut id_of: HashMap<Byte32, usize> = HashMap::new();
+    id_of.insert(blocks[0].hash(), 0);
+    let mut nonce = salt;
+    let mut next = |rng: &mut Rng| {
+        nonce += 1;
+        let sig = rng.below(100) < mood;
+        // low 32 bits = version field: top three bits 000, bit BIT = signal; the rest of the nonce keeps siblings distinct
+        ((nonce & 0x00ff_ffff) << 32) | if sig { 1 << BIT } else { 0 }
+    };
+    // first fork: from the node's own template (signals according to the node's own state) or hand-assembled
+    loop {
+        let tip = node.shared.snapshot().tip_header().clone();
+        if tip.epoch().number() >= epochs && tip.epoch().index() + 1 == tip.epoch().length() {
+            break;
+        }
+        if adjust && blocks.len() > 140 {
+            break;
+        }
+        let from_template = rng.chance(1, 2);
+        let b = if from_template { node.mine(0) } else { assemble(&node, &BlockSpec { nonce: next(&mut rng), ..Default::default() }).expect("assemble") };
+        node.process(&b).expect("own block refused");
+        parent.push(id_of[&b.parent_hash()]);
+        id_of.insert(b.hash(), blocks.len());
+        if from_template {
+            tmpl.push(blocks.len());
+        }
+        blocks.push(b);
+        if rng.chance(1, 5) {
+            let (st, since) = observe(&node, &c, &blocks);
+            moments.push(json!({"at": "grow", "n": blocks.len() - 1, "states": st, "since": since}));
+        }
+    }
+    let main_len = blocks.len() - 1;
+    let (st, since) = observe(&node, &c, &blocks);
+    moments.push(json!({"at": "fork1-complete", "n": main_len, "states": st, "since": since}));
+    // second fork from a block below, one block longer: delivered to the node, which reorganises
+    let f = rng.range(1, (main_len as u64).saturating_sub(2 * epoch_len).max(1)) as usize;
+    let bn = builder_node(&c, &blocks[1..=f]);
+    let mut fork: Vec<BlockView> = vec![];
+    for _ in f..main_len + 1 {
+        let b = assemble(&bn, &BlockSpec { nonce: next(&mut rng) | (1 << 63), ..Default::default() }).expect("assemble fork");
+        bn.process(&b).expect("builder refuses its block");
+        fork.push(b);
+    }
+    drop(bn);
+    let mut reorged = false;
+    for b in &fork {
+        let before = node.tip().1;
+        node.process(b).expect("fork block refused");
+        parent.push(id_of[&b.parent_hash()]);
+        id_of.insert(b.hash(), blocks.len());
+        blocks.push(b.clone());
+        if node.tip().1 == b.hash() && before != b.parent_hash() {
+            reorged = true;
+            let (st, since) = observe(&node, &c, &blocks);
+            moments.push(json!({"at": "after-reorg", "n": blocks.len() - 1, "states": st, "since": since}));
+        }
+    }
+    // the block template on the new fork signals by the state of the NEW tip
+    let b = node.mine(0);
+    node.process(&b).expect("template block after reorg refused");
+    parent.push(id_of[&b.parent_hash()]);
+    id_of.insert(b.hash(), blocks.len());
+    tmpl.push(blocks.len());
+    blocks.push(b);
+    let (st, since) = observe(&node, &c, &blocks);
+    moments.push(json!({"at": "final", "n": blocks.len() - 1, "states": st, "since": since}));
+    let n = blocks.len() - 1;
+    let tip = node.tip().1;
+    let main: Vec<bool> = blocks.iter().map(|b| node.shared.snapshot().is_main_chain(&b.hash())).collect();
+    drop(node);
+    json!({"round": round, "adjust": adjust, "reorged": reorged, "tip": id_of[&tip], "main": main, "tmpl": tmpl, "moments": moments,
+           "tree": {"period": period, "start": start, "timeout": timeout, "minact": minact, "num": num, "den": den,
+                    "glen": c.genesis_epoch_ext().length(), "n": n,
+                    "parent": parent[1..].to_vec(),
+                    "sig": blocks[1..].iter().map(signals).collect::<Vec<_>>(),
+                    "ep": blocks[1..].iter().map(|b| json!([b.epoch().number(), b.epoch().index(), b.epoch().length()])).collect::<Vec<_>>(),
+                    "forkAt": main_len + 1}})
+}
+
+fn cmd_node(args: &[String]) {
+    let seed = util::opt_u64(args, "--seed", 1);
+    let rounds = util::opt_u64(args, "--rounds", 2);
+    let adjust_rounds = util::opt_u64(args, "--adjust-rounds", 1);
+    let scratch = util::Scratch::new("gvbn");
+    ckb_types::global::DATA_DIR.set(scratch.path().join("data")).expect("DATA_DIR set once");
+    let ft = ckb_systemtime::faketime();
+    ft.set_faketime(fixture::GENESIS_TS + 100_000 * fixture::BLOCK_INTERVAL_MS);
+    let out = std::io::stdout();
+    let mut out = out.lock();
+    for r in 0..rounds + adjust_rounds {
+        let v = node_round(r, seed, r >= rounds);
+        writeln!(out, "{}", v).unwrap();
+    }
+    writeln!(out, "{}", json!({"summary": {"rounds": rounds + adjust_rounds}})).unwrap();
+    out.flush().unwrap();
+    drop(scratch);
+    std::process::exit(0);
+}
+
 fn main() {
     let args: Vec<String> = std::env::args().collect();
     match args.get(1).map(|s| s.as_str()) {
         Some("mock") => cmd_mock(&args[2..]),
+        Some("node") => cmd_node(&args[2..]),
         _ => {
-            eprintln!("usage: g_versionbits mock --in <trees.ndjson> [--from i] [--to j] [--seed s]");
+            eprintln!("usage: g_versionbits mock --in <trees.ndjson> [--from i] [--to j] [--seed s] | node --seed s --rounds r --adjust-rounds a");
             std::process::exit(2);
         }
     }
